@@ -730,6 +730,12 @@ def fdepsd(
         Dt4 *= 4  # 2 ** (b/2)
         Dt8 *= 16
         Dt12 *= 64
+        # ... and the variances accordingly (the values above are twice
+        # the pseudo-velocity variance), so that, as documented,
+        # var_test ** (b / 2) * di_test == di_sig:
+        sig2_4 = sig2_4 / 2
+        sig2_8 = sig2_8 / 2
+        sig2_12 = sig2_12 / 2
 
     # assemble outputs:
     columns = ["G1", "G2", "G4", "G8", "G12"]
